@@ -71,19 +71,19 @@ var unsupported = map[rewriteKey]bool{
 }
 
 type instr struct {
-	pkg      *packages.Package
-	info     *types.Info
-	fset     *token.FileSet
-	need     map[string]bool // shim aliases needed by current file
-	skip     map[ast.Node]bool
-	recv2    map[ast.Node]bool
-	tmp      int
-	errs     []string
+	pkg                    *packages.Package
+	info                   *types.Info
+	fset                   *token.FileSet
+	need                   map[string]bool // shim aliases needed by current file
+	skip                   map[ast.Node]bool
+	recv2                  map[ast.Node]bool
+	tmp                    int
+	errs                   []string
 	nGo, nSel, nChan, nMap int
 }
 
-func id(n string) *ast.Ident { return ast.NewIdent(n) }
-func sel(pkg, name string) ast.Expr { return &ast.SelectorExpr{X: id(pkg), Sel: id(name)} }
+func id(n string) *ast.Ident                           { return ast.NewIdent(n) }
+func sel(pkg, name string) ast.Expr                    { return &ast.SelectorExpr{X: id(pkg), Sel: id(name)} }
 func call(fn ast.Expr, args ...ast.Expr) *ast.CallExpr { return &ast.CallExpr{Fun: fn, Args: args} }
 
 func (in *instr) mc(name string, args ...ast.Expr) *ast.CallExpr {
